@@ -293,6 +293,7 @@ def fact_locks : List String := [
 
 def fact_makechans : List String := [
     "NewProgram|chan Msg|cap=0",
+    "NewProgram|chan struct{}|cap=0",
     "Program.Run|chan Cmd|cap=0",
     "Program.Run|chan error|cap=0",
     "Program.Run|chan struct{}|cap=0",
@@ -454,6 +455,7 @@ def fact_recvs : List String := [
     "Every|v3.C|bare|go=false",
     "Every|v3.C|bare|go=false",
     "Program.Run|p.ctx.Done()|select+done|go=true",
+    "Program.Run|p.finished|select+default|go=false",
     "Program.Send|p.ctx.Done()|select+done|go=false",
     "Program.Wait|p.finished|bare|go=false",
     "Program.checkResize|p.ctx.Done()|select+done|go=false",
